@@ -38,6 +38,8 @@ type violation struct {
 
 type Machine struct {
 	noAssume bool // set while vrt.Check runs
+	allocID    string // vrt.AllocLimit: assertion id and byte limit for slice allocations (0 = off)
+	allocLimit uint64
 	prog    *ssa.Program
 	globals map[*ssa.Global]*value
 	solver  *Solver
@@ -128,6 +130,9 @@ type event struct {
 }
 
 type passThrough struct{}
+
+// constFn is a method whose result is known when it is looked up (Error() of an opaque error).
+type constFn struct{ v value }
 
 // noopFn is a method of the null object (no-op logger).
 type noopFn struct {
@@ -345,6 +350,8 @@ func (m *Machine) decide(what string, c *Term) bool {
 }
 
 // concretize picks a concrete value for t (forking over all feasible values, at most limit).
+var stdSizes = types.SizesFor("gc", "amd64")
+
 func (m *Machine) concretize(what string, t *Term, limit int) uint64 {
 	if t.IsConst() {
 		return t.Val
@@ -494,6 +501,8 @@ func (m *Machine) call(caller *frame, fn value, args []value) value {
 		return m.callSSA(caller, fn.Fn, args, fn.Env)
 	case *ssa.Builtin:
 		return m.callBuiltin(caller, fn, args)
+	case *constFn:
+		return fn.v
 	case *noopFn:
 		res := fn.sig.Results()
 		if res.Len() == 1 {
@@ -748,6 +757,8 @@ func (m *Machine) visitInstr(fr *frame, instr ssa.Instruction) continuation {
 	case *ssa.MakeSlice:
 		capT := fr.get(instr.Cap).(*Term)
 		lenT := fr.get(instr.Len).(*Term)
+		tEltA := instr.Type().Underlying().(*types.Slice).Elem()
+		m.checkAlloc(capT, uint64(stdSizes.Sizeof(tEltA)))
 		c := int(m.concretizeOrCut("makeslice.cap", capT, 64))
 		l := int(m.concretizeOrCut("makeslice.len", lenT, 64))
 		if l < 0 || c < l || c > 1<<28 {
@@ -925,6 +936,13 @@ func (m *Machine) prepareCall(fr *frame, call *ssa.CallCommon) (fn value, args [
 			for _, arg := range call.Args {
 				args = append(args, fr.get(arg))
 			}
+			return
+		}
+		if oe, ok := recv.v.(*opaqueErr); ok && recv.t == opaqueErrType && call.Method.Name() == "Error" {
+			// the text of an error built by fmt.Errorf / errors.New from operands the engine does
+			// not format: the format string itself (verbs unexpanded) - enough for the harnesses'
+			// strings.Contains tests on constant parts of a message
+			fn = &constFn{v: oe.msg}
 			return
 		}
 		f := m.prog.LookupMethod(recv.t, call.Method.Pkg(), call.Method.Name())
